@@ -332,6 +332,10 @@ def monitor(ctx, extended=False):
                 except Exception as e:   # noqa
                     live = ('exc', type(e).__name__)
                 args = [dict(a.d) if isinstance(a, OwnedDict) else a for a in args]
+                if (F.use_sf, F.use_sqrtcx) != (sf, sq):
+                    ctx.violation(f'{fn} ({live[0]}) left the module switches at use_sf={F.use_sf}, use_sqrtcx={F.use_sqrtcx}; the caller had set {sf}, {sq}',
+                                  {'history': log[-14:], 'use_sf': sf, 'use_sqrtcx': sq}, key='history-dependence')
+                    break
                 want = fresh.call(fn, args, kwargs, sf, sq)
                 if live[0] != want[0] or (live[0] == 'ok' and not same(live[1], want[1])) or (live[0] == 'exc' and live[1] != want[1]):
                     ctx.violation(f'{fn} returned {str(live)[:160]} after this history; the same call in a fresh interpreter state returns {str(want)[:160]}',
@@ -378,6 +382,47 @@ def monitor(ctx, extended=False):
                                       {'history': log, 'use_sf': True, 'use_sqrtcx': True}, key='history-dependence')
                         break
                     events.add((fn, 'after-failed-call' if live[0] == 'exc' else 'ok-in-failing-script'))
+        # the graded-sand function fails inside its loop over the fractions (line speed 0, a concentration above the bed concentration); afterwards the switches are
+        # what the caller set and a coarse-grain call (the only place the sliding-flow switch matters) answers as in a fresh interpreter
+        coarse = [(1.5, 0.1524, 6.0e-3, 4.5e-5, 1.0e-6, 1.0, 2.65, 0.12), (3.0, 0.3, 8.0e-3, 4.5e-5, 1.3e-6, 1.0248103, 2.65, 0.2)]
+        for sf, sq in ((True, True), (True, False), (False, True)):
+            for b in pools(ctx.rng)[:2]:
+                gsd = {0.15: b['d'] / 2.0, 0.5: b['d'], 0.85: b['d'] * 2.72}
+                F.use_sf, F.use_sqrtcx = sf, sq
+                log = [f'use_sf={sf}; use_sqrtcx={sq}']
+                bad = False
+                for vls_, cv_, cvt_ in ((b['vls'], b['Cv'], False), (0.0, b['Cv'], False), (b['vls'], 0.75, True), (b['vls'], 0.75, False), (0.0, b['Cv'], True)):
+                    args = [gsd, vls_, b['Dp'], b['epsilon'], b['nu'], b['rhol'], b['rhos'], cv_]
+                    kwargs = {'Cvt_eq_Cvs': cvt_}
+                    ctx.count('evaluations')
+                    log.append(f'framework.Erhg_graded{tuple(args)} {kwargs}')
+                    try:
+                        live = ('ok', F.Erhg_graded(dict(gsd), *args[1:], **kwargs))
+                    except Exception as e:   # noqa
+                        live = ('exc', type(e).__name__)
+                    events.add(('framework.Erhg_graded', 'after-failed-call' if live[0] == 'exc' else 'ok-in-failing-script'))
+                    if (F.use_sf, F.use_sqrtcx) != (sf, sq):
+                        ctx.violation(f'Erhg_graded ({live}) left the module switches at use_sf={F.use_sf}, use_sqrtcx={F.use_sqrtcx}; the caller had set {sf}, {sq}',
+                                      {'history': list(log), 'use_sf': sf, 'use_sqrtcx': sq}, key='history-dependence')
+                        bad = True
+                        break
+                    for fn_, a_ in (('framework.Cvs_Erhg', list(coarse[0])), ('heterogeneous.Erhg', list(coarse[1]) + [sf, sq]), ('framework.Cvt_Erhg', list(coarse[1]))):
+                        mod, name = fn_.split('.')
+                        try:
+                            lv = ('ok', getattr(mods[mod], name)(*a_))
+                        except Exception as e:   # noqa
+                            lv = ('exc', type(e).__name__)
+                        want = fresh.call(fn_, a_, {}, sf, sq)
+                        if lv[0] != want[0] or (lv[0] == 'ok' and not same(lv[1], want[1])) or (lv[0] == 'exc' and lv[1] != want[1]):
+                            ctx.violation(f'{fn_}{tuple(a_)} returned {str(lv)[:160]} after this history (graded calls, some of which fail); a fresh interpreter state returns {str(want)[:160]}',
+                                          {'history': list(log), 'use_sf': sf, 'use_sqrtcx': sq}, key='history-dependence')
+                            bad = True
+                            break
+                    if bad:
+                        break
+                if bad:
+                    break
+        F.use_sf, F.use_sqrtcx = True, True
         # an argument that is the RESULT of an earlier call on the same slurry: the delivered-concentration functions first, then the spatial-concentration functions
         # at exactly the in-situ concentration they derived (bit for bit), then the delivered ones again - and the same starting from the spatial side
         F.use_sf, F.use_sqrtcx = True, True
